@@ -975,6 +975,8 @@ func TestC16(t *testing.T) {
 	cases = append(cases, auth...)
 	cbf := callbackFaultCases(p, env.Seed+1)
 	cases = append(cases, cbf...)
-	run.Main(t, "C16", cases, map[string]any{"early_close_cases": len(early), "authentic_alert_cases": len(auth), "callback_fault_cases": len(cbf), "variants": names, "positions": maxPos + 1, "actions": fmt.Sprint(allActions),
+	hsa := hsAlertCases(p, env.Thorough(), env.Seed+1)
+	cases = append(cases, hsa...)
+	run.Main(t, "C16", cases, map[string]any{"early_close_cases": len(early), "authentic_alert_cases": len(auth), "callback_fault_cases": len(cbf), "handshake_epoch_alert_cases": len(hsa), "variants": names, "positions": maxPos + 1, "actions": fmt.Sprint(allActions),
 		"after_loss_variants": lossy, "after_loss_masks": len(masks) - 1, "after_loss_actions": fmt.Sprint(lossActs)})
 }
